@@ -41,6 +41,7 @@ struct Sess {
     no_clear_if_empty: bool,
     delays: Vec<(&'static str, usize, u64)>,
     set_ops: bool,          // C10 sessions: the accepted output is the selected set, not the list
+    end: u8,                // C05 sessions: how the session is ended (0 = select-all + accept by the harness)
 }
 
 const WORDS: [&str; 12] = ["ab", "ba", "abc", "cab", "bca", "aa", "bb", "c", "acb", "xyz", "axb", "b"];
@@ -68,11 +69,24 @@ fn gen_c10(r: &mut Rng) -> Sess {
     let mut delays = Vec::new();
     for _ in 0..r.below(3) { delays.push((*r.pick(&POINTS), 1 + r.below(4) as usize, *r.pick(&[5u64, 30, 120]))); }
     Sess { items, timeline, init_query: r.pick(&["", "a", "b", "ab"]).to_string(), exact: r.chance(1, 2), select1: false, exit0: false, sync: false,
-           header_lines: if r.chance(1, 4) { 1 + r.below(2) as usize } else { 0 }, no_clear_if_empty: false, delays, set_ops: true }
+           header_lines: if r.chance(1, 4) { 1 + r.below(2) as usize } else { 0 }, no_clear_if_empty: false, delays, set_ops: true, end: 0 }
+}
+
+fn gen_c05(r: &mut Rng) -> Sess {
+    let n_items = r.below(12) as usize;
+    let items: Vec<String> = (0..n_items).map(|i| format!("{}{}", r.pick(&WORDS), i)).collect();
+    let mut timeline = Vec::new();
+    if n_items > 0 { timeline.push((0, Act::Feed(n_items))); }
+    timeline.push((0, Act::Eof));
+    for _ in 0..r.below(4) { timeline.push((*r.pick(&[0u64, 5, 20]), if r.chance(2, 3) { Act::Add(*r.pick(&['a', 'b', 'c', 'x'])) } else { Act::Back })); }
+    timeline.push((0, Act::Settle));
+    Sess { items, timeline, init_query: r.pick(&["", "", "a", "ab"]).to_string(), exact: true, select1: false, exit0: false, sync: false,
+           header_lines: 0, no_clear_if_empty: false, delays: vec![], set_ops: false, end: 1 + r.below(7) as u8 }
 }
 
 fn gen(r: &mut Rng, focus: &str) -> Sess {
     if focus == "C10" { return gen_c10(r); }
+    if focus == "C05" { return gen_c05(r); }
     let c14 = focus == "C14";
     let n_runs = if focus == "C01" { match r.below(20) { 0..=13 => 1, 14..=18 => 2, _ => 3 } } else { 1 };
     let mut items: Vec<String> = Vec::new();
@@ -137,6 +151,7 @@ fn gen(r: &mut Rng, focus: &str) -> Sess {
         no_clear_if_empty: r.chance(1, 8),
         delays,
         set_ops: false,
+        end: 0,
     }
 }
 
@@ -159,7 +174,7 @@ fn leak(s: &str) -> &'static str {
 
 /// `items=ab0,cab1;tl=0:F2,5:E,10:+a,0:-,0:R,0:H;q=ab;exact=1;s1=1;e0=0;sync=0;hl=0;ncie=0;delays=m.take:1:60`
 fn parse_spec(spec: &str) -> Sess {
-    let mut s = Sess { items: vec![], timeline: vec![], init_query: String::new(), exact: false, select1: false, exit0: false, sync: false, header_lines: 0, no_clear_if_empty: false, delays: vec![], set_ops: false };
+    let mut s = Sess { items: vec![], timeline: vec![], init_query: String::new(), exact: false, select1: false, exit0: false, sync: false, header_lines: 0, no_clear_if_empty: false, delays: vec![], set_ops: false, end: 0 };
     for kv in spec.split(';') {
         let (k, v) = kv.split_once('=').unwrap_or((kv, ""));
         match k {
@@ -191,6 +206,7 @@ fn parse_spec(spec: &str) -> Sess {
             "hl" => s.header_lines = v.parse().unwrap(),
             "ncie" => s.no_clear_if_empty = v == "1",
             "setops" => s.set_ops = v == "1",
+            "end" => s.end = v.parse().unwrap_or(0),
             "delays" => {
                 for e in v.split(',').filter(|x| !x.is_empty()) {
                     let p: Vec<&str> = e.split(':').collect();
@@ -207,8 +223,8 @@ fn spec_of(s: &Sess) -> String {
     let tl: Vec<String> = s.timeline.iter().map(|(d, a)| format!("{}:{}", d, match a {
         Act::Feed(k) => format!("F{}", k), Act::Eof => "E".into(), Act::Add(c) => format!("+{}", c), Act::Back => "-".into(), Act::Rotate => "R".into(), Act::Hb => "H".into(), Act::Cmd => "C".into(), Act::Settle => "S".into(), Act::SelAll => "A".into(), Act::TogAll => "T".into(), Act::DeselAll => "D".into() })).collect();
     let dl: Vec<String> = s.delays.iter().map(|(n, k, ms)| format!("{}:{}:{}", n, k, ms)).collect();
-    format!("items={};tl={};q={};exact={};s1={};e0={};sync={};hl={};ncie={};setops={};delays={}", s.items.join(","), tl.join(","), s.init_query,
-        s.exact as u8, s.select1 as u8, s.exit0 as u8, s.sync as u8, s.header_lines, s.no_clear_if_empty as u8, s.set_ops as u8, dl.join(","))
+    format!("items={};tl={};q={};exact={};s1={};e0={};sync={};hl={};ncie={};setops={};end={};delays={}", s.items.join(","), tl.join(","), s.init_query,
+        s.exact as u8, s.select1 as u8, s.exit0 as u8, s.sync as u8, s.header_lines, s.no_clear_if_empty as u8, s.set_ops as u8, s.end, dl.join(","))
 }
 
 fn subseq(q: &str, s: &str) -> bool {
@@ -234,6 +250,9 @@ struct Outcome {
     stalled: bool,          // never reached quiescence
     final_query: String,
     regex: bool,
+    final_key: String,
+    final_event: String,
+    out_query: String,
     run_start: usize,       // index of the first item of the last command run
     fed: usize,             // number of items fed in all
 }
@@ -414,16 +433,33 @@ fn run(s: &Sess) -> Outcome {
         if !wait_quiescent(mark.saturating_sub(1), Duration::from_millis(20000)) {
             stalled = true;
         }
-        if !s.set_ops { let _ = tx.send((Key::Null, Event::EvActSelectAll)); }
-        let _ = tx.send((Key::Null, Event::EvActAccept(None)));
+        if s.end > 0 {
+            let (k, ev) = match s.end {
+                1 => (Key::Enter, Event::EvActAccept(None)),
+                2 => (Key::Ctrl('y'), Event::EvActAccept(Some("ctrl-y".to_string()))),
+                3 => (Key::ESC, Event::EvActAbort),
+                4 => (Key::Ctrl('d'), Event::EvActIfQueryEmpty("abort".to_string())),
+                5 => (Key::Ctrl('y'), Event::EvActIfQueryNotEmpty("accept".to_string())),
+                6 => (Key::Ctrl('g'), Event::EvActIfNonMatched("abort".to_string())),
+                _ => (Key::Ctrl('d'), Event::EvActDeleteCharEOF),
+            };
+            let _ = tx.send((k, ev));
+            // a conditional whose condition is false ends nothing: Enter then accepts
+            let t2 = Instant::now();
+            while !th.is_finished() && t2.elapsed() < Duration::from_millis(400) { std::thread::sleep(Duration::from_millis(5)); }
+            if !th.is_finished() { let _ = tx.send((Key::Enter, Event::EvActAccept(None))); }
+        } else {
+            if !s.set_ops { let _ = tx.send((Key::Null, Event::EvActSelectAll)); }
+            let _ = tx.send((Key::Null, Event::EvActAccept(None)));
+        }
     }
     let out = th.join().ok().flatten();
     let trace = V::trace_stop();
-    let (is_abort, output) = match out {
-        Some(o) => (o.is_abort, o.selected_items.iter().map(|i| i.output().to_string()).collect()),
-        None => (true, vec![]),
+    let (is_abort, output, final_key, final_event, out_query) = match out {
+        Some(o) => (o.is_abort, o.selected_items.iter().map(|i| i.output().to_string()).collect(), format!("{:?}", o.final_key), format!("{:?}", o.final_event), o.query.clone()),
+        None => (true, vec![], String::new(), String::new(), String::new()),
     };
-    Outcome { auto, is_abort, output, trace, stalled, final_query: query, regex, run_start, fed: next }
+    Outcome { auto, is_abort, output, trace, stalled, final_query: query, regex, final_key, final_event, out_query, run_start, fed: next }
 }
 
 
@@ -684,7 +720,7 @@ fn session_case(s: &Sess, o: &Outcome) -> Option<String> {
         bi += best_p * best_k;
     }
     let steps = coq::list(segs.iter().map(|(n, b)| coq::pair(coq::n(*n), coq::list(b.iter().map(|(l, o)| coq::pair(l.clone(), coq::ns(o.iter().cloned())))))));
-    let final_ids: Option<Vec<u64>> = if o.auto || o.stalled || s.set_ops { None } else {
+    let final_ids: Option<Vec<u64>> = if o.auto || o.stalled || s.set_ops || s.end > 0 { None } else {
         let mut ids = Vec::new();
         for t in &o.output {
             match s.items.iter().position(|x| x == t) { Some(k) => ids.push(k as u64), None => ids.push(9_999_999) }
@@ -936,7 +972,30 @@ fn run_case(seed: u64, id: u64, focus: &str, spec: Option<&String>, out: &mut Ve
             if o.output != want { bad = Some(format!("after the select-all / toggle-all / deselect-all history and re-filtering the accepted items are {:?}, the selected set is {:?}", o.output, want)); }
         } else if o.output.len() > 1 { bad = Some(format!("nothing is selected but {:?} was accepted", o.output)); }
     }
-    if s.set_ops {
+    if s.end > 0 {
+        // C05: the result carries the query as edited and the key / event that ended the session; abort is abort
+        let q = &o.final_query;
+        let n_match = exp.len();
+        let (want_abort, want_key, want_ev): (bool, &str, &str) = match s.end {
+            1 => (false, "Enter", "EvActAccept(None)"),
+            2 => (false, "Ctrl('y')", "EvActAccept(Some(\"ctrl-y\"))"),
+            3 => (true, "ESC", "EvActAbort"),
+            4 => if q.is_empty() { (true, "Ctrl('d')", "EvActAbort") } else { (false, "Enter", "EvActAccept(None)") },
+            5 => if !q.is_empty() { (false, "Ctrl('y')", "EvActAccept(None)") } else { (false, "Enter", "EvActAccept(None)") },
+            6 => if n_match == 0 { (true, "Ctrl('g')", "EvActAbort") } else { (false, "Enter", "EvActAccept(None)") },
+            _ => if q.is_empty() { (true, "Ctrl('d')", "EvActAbort") } else { (false, "Enter", "EvActAccept(None)") },
+        };
+        out.push(format!("{}\tdist\tend={}", id, s.end));
+        if o.is_abort != want_abort || o.final_key != want_key || o.final_event != want_ev {
+            bad = Some(format!("the session ended with abort={} key={} event={}; expected abort={} key={} event={} (query {:?}, {} matches)", o.is_abort, o.final_key, o.final_event, want_abort, want_key, want_ev, q, n_match));
+        } else if &o.out_query != q {
+            bad = Some(format!("the result carries query {:?}, the query as edited is {:?}", o.out_query, q));
+        } else if !want_abort && n_match > 0 && o.output.len() != 1 {
+            bad = Some(format!("accept with nothing selected returned {:?}, expected the one cursor item", o.output));
+        } else if !want_abort && n_match > 0 && !exp.contains(&o.output[0]) {
+            bad = Some(format!("accept returned {:?}, which is not a listed item ({:?})", o.output, exp));
+        }
+    } else if s.set_ops {
     } else if s.select1 || s.exit0 {
         let n = exp.len();
         if s.select1 && n == 1 {
@@ -948,7 +1007,7 @@ fn run_case(seed: u64, id: u64, focus: &str, spec: Option<&String>, out: &mut Ve
             bad = Some(format!("{} item(s) match {:?} but the session ended on its own ({}): decided on a partial result", n, o.final_query, if o.is_abort { "exit-0" } else { "select-1" }));
         }
     }
-    if bad.is_none() && !o.auto && !s.set_ops {
+    if bad.is_none() && !o.auto && !s.set_ops && s.end == 0 {
         if o.stalled { bad = Some("no quiescent state within 20 s of the last input (heartbeats stopped or never settle)".to_string()); }
         else {
             let stale_ok = s.no_clear_if_empty && exp.is_empty() && o.run_start > 0;
